@@ -1,10 +1,10 @@
 CONSTANTS Pol = "min"
  Ords = {0, 1}
  Prefixes = {"", "a", "ab"}
- MaxOps = 2
+ MaxOps = 3
  CheckReads = FALSE
  AnyPre = FALSE
- MaxBlocks = 3
+ MaxBlocks = 4
 INIT Init
 NEXT Next
 INVARIANT MergedEqualsSequential
